@@ -18,6 +18,8 @@ if [ -z "$demos" ]; then
       recovery_test) dest=lib/recovery/recovery_test ;;
       executor_test) dest=lib/execution/executors/executor_test ;;
       index_test) dest=lib/storage/index/index_test ;;
+      buffer) dest=lib/storage/buffer ;;
+      access) dest=lib/storage/access ;;
       *) dest=lib/samehada/samehada_test ;;
     esac
     cp $f $W/$dest/
